@@ -3,6 +3,7 @@ Require Extraction.
 Require Import ExtrOcamlBasic.
 From Coq Require Import ZArith NArith.
 From Astisub Require Import Kit.Base Kit.Str Kit.Float64 Kit.Scan Kit.Html Model.Ops Model.Dur Model.Lin Model.Srt Model.Files Model.Vtt Model.Conv Model.ConvOps Model.Plain Model.PlainOps Model.Cli Model.TtxRow Model.Ttx Model.TtxSpec Model.Ssa Kit.Float64x Kit.Xml Model.Ttml Kit.XmlParse Kit.Utf8 Model.Stl Model.PlainSsa Model.SrtC Model.VttC Model.PlainStl Kit.IOW Model.StlIO Kit.Chk Model.StlC Model.PlainTtml Model.TtmlOpt Model.PlainTtx Kit.XmlParse2 Proofs.TtmlRender Proofs.TtmlRenderEx Model.TtxHam Kit.XmlEsc Model.TtmlGo Model.ConvTtml Model.TtmlC Model.SsaC Model.ConvStl Model.ConvStlVtt Model.ConvStlTtml Model.ConvTtx Model.TtxFull Kit.Int64 Model.Ops64 Model.StlCW.
+From Astisub Require Import Kit.ScanLim Model.ConvSsaVtt Model.ConvTtmlSsa Model.ConvTtmlVtt Model.ConvVttSsa Proofs.ConvTtmlSsaProofs.
 Extraction "model.ml"
   Z.add Z.mul Z.opp Z.div Z.modulo Z.of_N Z.to_N N.add N.mul
   order merge add_dur force_duration fragment unfragment optimize remove_styling item_text
@@ -33,4 +34,5 @@ Extraction "model.ml"
   read_stl read_faithful write_stl write_faithful encode_text_stl text_faithful decode_bytes open_row stl_ttx_row
   parse_gsi gsi_faithful gsi_bytes parse_tti tti_bytes new_gsi new_tti sattr0_stl time_faithful stl_enc stl_dec read_stl_sched read_stl_fail_at write_stl_to read_stl_c write_stl_c encode_text_stl_c open_row_c stl_ttx_row_c parse_gsi_c gsi_bytes_c parse_tti_c tti_bytes_c decode1_c convert_srt_stl convert_vtt_stl convert_ssa_stl convert_ttml_stl convert_stl_vtt convert_stl_ttml_go
   tf_of tf_reads tf_oneshot
-  parse_gsi gsi_faithful gsi_bytes parse_tti tti_bytes new_gsi new_tti sattr0_stl time_faithful stl_enc stl_dec read_stl_sched read_stl_fail_at write_stl_to read_stl_c write_stl_c encode_text_stl_c open_row_c stl_ttx_row_c parse_gsi_c gsi_bytes_c parse_tti_c tti_bytes_c decode1_c convert_srt_stl convert_vtt_stl convert_ssa_stl convert_ttml_stl convert_stl_vtt convert_stl_ttml_go write_stl_items_c item_flat read_stl_fail_at_wd.
+  parse_gsi gsi_faithful gsi_bytes parse_tti tti_bytes new_gsi new_tti sattr0_stl time_faithful stl_enc stl_dec read_stl_sched read_stl_fail_at write_stl_to read_stl_c write_stl_c encode_text_stl_c open_row_c stl_ttx_row_c parse_gsi_c gsi_bytes_c parse_tti_c tti_bytes_c decode1_c convert_srt_stl convert_vtt_stl convert_ssa_stl convert_ttml_stl convert_stl_vtt convert_stl_ttml_go write_stl_items_c item_flat read_stl_fail_at_wd
+  convert_ttml_ssa convert_ttml_ssa_by ttml_ssa_okb read_ttml_bytes2 convert_ssa_vtt convert_vtt_ssa convert_ttml_vtt scan_lim.
